@@ -600,7 +600,7 @@ class TraitsGen:
     def __init__(self, sch, model):
         self.sch = sch
         self.M = model
-        self.pkg = sch["package"]
+        self.pkg = sch.get("schema_name") or sch["package"]
         self.types = {t["name"].lower(): t for t in sch["types"]}
         self.funcs = []
         self.cur = None
